@@ -69,6 +69,15 @@ func NewModel(cfg *spec.SchedConfig, o *spec.Objects) *Model {
 		m.PodGroups[pg.Name] = pg
 	}
 	for _, q := range o.Queues {
+		if !cfg.FullHierarchyFairness {
+			// project-level fairness (--full-hierarchy-fairness=false): the scheduler drops top-level queues and
+			// re-parents every other queue to one synthetic unlimited "default" queue; model the same flat tree.
+			if q.Spec.ParentQueue == "" {
+				continue
+			}
+			q = q.DeepCopy()
+			q.Spec.ParentQueue = ""
+		}
 		m.Queues[q.Name] = q
 	}
 	for _, br := range o.BindRequests {
